@@ -22,7 +22,9 @@ RULE = (
     "$format_version 1.0, $key_map/$value_map exactly the maps in use, user meta), one entry per node in pre-order, "
     "1-based parent positions, int payload exactly for a repeated data_id whose kind equals that of the first "
     "occurrence (= that occurrence's position), plain string vs dict payloads, keys/values shortened exactly as the "
-    "header declares. reader part: an independent encoder renders tree specs to the documented layout with free "
+    "header declares. mutated-documents part: byte-level damage (delete / duplicate / replace / insert) to valid "
+    "documents - load() must raise or return a tree that satisfies the C01-C03 predicates. reader part: an "
+    "independent encoder renders tree specs to the documented layout with free "
     "formatting choices (indent, key order, maps on/off, clone references on/off, older generator strings) and "
     "load() must return the described tree; plus the four literal documents of the user guide and generated JSON "
     "without a valid nutree header, which must be rejected. Non-trivial: document with a clone reference and a dict "
